@@ -213,9 +213,10 @@ def fault_cases(tier):
             hl = 12 if gvendor is not None else 8
             if hl * depth + 20 >= 2 ** 24:
                 continue
-            for _ in range(depth):
-                d = gcode.to_bytes(4, "big") + bytes([gflags]) + (hl + len(d)).to_bytes(3, "big") + \
-                    (gvendor.to_bytes(4, "big") if gvendor is not None else b"") + d
+            # built outside-in in one pass (prepending level by level would copy the whole string each time)
+            head = gcode.to_bytes(4, "big") + bytes([gflags])
+            tail = gvendor.to_bytes(4, "big") if gvendor is not None else b""
+            d = b"".join(head + (hl * (depth - i)).to_bytes(3, "big") + tail for i in range(depth))
             yield from emit("deep-nesting", "avp", d)
             yield from emit("deep-nesting", "message", b"\x01" + (20 + len(d)).to_bytes(3, "big") + b"\x80\x00\x01\x3c" + bytes(12) + d)
     # garbage
